@@ -41,9 +41,15 @@ def gens(tier):
     return g
 
 
-def _post(work, V, cases, obs):
+def make_post(tier):
+    def _post(work, V, cases, obs):
+        return _post_tier(work, V, tier)
+    return _post
+
+
+def _post_tier(work, V, tier):
     from .. import mechbind
-    info = mechbind.int_value(work, V)
+    info = mechbind.int_value(work, V) + mechbind.cjk_int_value(work, V, tier)
     return {'mech_model_checks': info, 'states': sum(m['distinct_states'] for m in info), 'transitions': sum(m['distinct_states'] for m in info)}
 
 
@@ -54,7 +60,7 @@ def run(tier):
         rule='cases = terminal states of Gen_NumWords_en (%s): every n below Small, every 10^k and 10^k +/- 1 below 10^15, all pairs of groups from the limb pool, sparse and repeated multi-group '
              'numbers, x {with/without "and"} x {hyphen/space} x {cardinal, ordinal}; Spell / SpellOrdinal and the decimal digits are computed by TLC on base-1000 group sequences; '
              'replayed into recognize_number / recognize_ordinal; plus Gen_NumWords_intl: the cardinals of es-es, fr-fr, de-de, zh-cn, ja-jp for the generated range (grammars written in NumWords_intl.tla); verdict by TLC (Trace_NumWords_intl, same relation for all)' % tier,
-        assumptions=common.STD_ASSUMPTIONS, exhaustive=True, post=_post)
+        assumptions=common.STD_ASSUMPTIONS, exhaustive=True, post=make_post(tier))
 
 
 def replay(path):
